@@ -18,7 +18,7 @@ from .core.loader import Program
 from .core.report import Check
 
 PROPS = ["C01", "C02", "C03", "C04", "C05", "C06", "C08", "C09", "C10", "C13", "C14", "C15", "C16",
-         "C17", "C19", "C20"]
+         "C17", "C18", "C19", "C20"]
 
 
 chk_holder = []
